@@ -295,7 +295,7 @@ def oracle_history(ops, states, comparable=None):
             specified = ok_list(items) is None
         else:
             sflag, sitems = regs[int(arg)]
-            new = list(sitems)
+            new = list(sitems) if (c == "b" or sflag != "R") else list(sitems[::-1])    # in insertion order
             honest = sflag == "U" or (sflag == "D" and ok_list(sitems) is None and strictly(sitems, True)) or \
                 (sflag == "R" and ok_list(sitems[::-1]) is None and strictly(sitems, False))
             specified = ok_list(items) is None and (honest or c == "b")
@@ -313,8 +313,14 @@ def oracle_history(ops, states, comparable=None):
             bad = ok_list(gitems)
             if bad:
                 return where + "result %s: %s" % (st, bad), multi
-            if not multi and gitems != sorted(set(items) | set(new)):
-                return where + "result %s is not sort_dedup" % st, multi
+            order = []
+            for d, _ in items + new:
+                if d not in order:
+                    order.append(d)
+            expect = [p for d in order for p in sorted(set(q for q in items + new if q[0] == d))]
+            if gitems != expect:
+                return where + "result %s, expected %s (a block per document in order of first appearance, sorted inside)" % (
+                    st, ",".join("%d.%d" % p for p in expect)), multi
         regs[r] = (gflag, gitems)
     return None, False
 
@@ -430,12 +436,12 @@ def s_oracle(case, text):
         multi = len(set(roots)) > 1
         hasfrag = any(i in frag for i in ids)     # the fragment root counts as a document of its own in the library
         if len(set(ids)) != len(ids):
-            return "%s: a node occurs twice" % e, ("RTF-ROOT" if hasfrag else "F7" if multi else None)
+            return "%s: a node occurs twice" % e, ("RTF-ROOT" if hasfrag else None)
         seen, cur = set(), None
         for t in roots:
             if t != cur:
                 if t in seen:
-                    return "%s: nodes of different trees are interleaved" % e, ("RTF-ROOT" if hasfrag else "F7")
+                    return "%s: nodes of different trees are interleaved" % e, ("RTF-ROOT" if hasfrag else None)
                 seen.add(t); cur = t
         for pos, (i, t) in enumerate(v):
             if i == t and pos > 0 and roots[pos - 1] == t:
@@ -505,7 +511,7 @@ def make_cases(ctx, scale, impl=None):
             nonattr = [i for i in range(doc.n) if doc.kinds[i] != "attr"]
             ctxnode = r.choice(nonattr[len(nonattr) // 2:] if r.random() < 0.6 else nonattr)   # late nodes: long reverse axes
             xjobs.append((doc, ctxnode, [gen_path(r) for _ in range(36)]))
-        # several documents (known-finding class F7 when a list mixes documents)
+        # several documents: blocks per document in order of first appearance (F7 was repaired by ea5de2f; a recurrence is a violation)
         for kinds in (["n", "n"], ["xi", "xn"], ["xn", "xn", "xi"], ["n", "n", "n"]):
             tops = [top] + [gen_doc(r, "small") for _ in kinds[1:]]
             docs = [DocInfo(t, k) for t, k in zip(tops, kinds)]
@@ -583,7 +589,7 @@ def evaluate(ctx, cases, impl, model):
             if ri not in seen:
                 seen.add(ri)
             if msg:
-                orc.append({"case": c["line"], "what": msg, "known": "F7" if multi else None, "cls": c["cls"]})
+                orc.append({"case": c["line"], "what": msg, "known": None, "cls": c["cls"]})
         elif c["mode"] == "P":
             halves = ri.split(";")
             doc = c["docs"][0]
@@ -689,7 +695,7 @@ def replay(ctx, path):
         elif f[1] == "L":
             msg, multi = oracle_history(f[-1][2:].split(), o.split(";") if o else [])
             if msg and multi:
-                msg += "   [class: list holds nodes of more than one document]"
+                msg += "   [list holds nodes of more than one document]"
         elif f[1] == "X":
             exprs = [untok(x.split("=", 1)[1]) for x in f[-1][2:].split()]
             outs = o.split(";")
